@@ -247,3 +247,113 @@ Proof.
   intros H I. destruct (ig_conservation _ _ _ _ H) as (P & _). eapply Permutation_in; [exact P|].
   unfold ig_accounted. apply in_or_app; auto.
 Qed.
+
+(* ------------------------------------------------------------------ block never drops *)
+Lemma ig_block_step c s a s' : ig_strat c = IgBlock -> ig_step c s a = Some s' -> ig_dropped s' = ig_dropped s.
+Proof.
+  intros B H. destruct a; unfold ig_step, ig_sent, ig_drop, ig_set_pc, ig_set_prods, ig_swap in H; ig_cases H; simpl; auto.
+  all: congruence.
+Qed.
+
+Theorem ig_block_never_drops c n l s :
+  ig_strat c = IgBlock -> ig_run c (ig_init c n) l = Some s -> ig_dropped s = 0.
+Proof.
+  intros B. change 0 with (ig_dropped (ig_init c n)). generalize (ig_init c n). revert s.
+  induction l as [|a l IH]; simpl; intros s s0 H.
+  - inversion H; auto.
+  - destruct (ig_step c s0 a) eqn:E; try discriminate. rewrite (IH _ _ H). eapply ig_block_step; eauto.
+Qed.
+
+(* ------------------------------------------------------------------ capacity ceiling *)
+Lemma ig_newcap_le c cp len nc : 0 < ig_max c -> ig_newcap c cp len = Some nc -> nc <= ig_max c.
+Proof.
+  intros M. unfold ig_newcap.
+  destruct (cp =? 0); try discriminate.
+  destruct ((0 <? ig_max c) && (ig_max c <=? cp)); try discriminate.
+  destruct (if ig_tnum c =? 0 then (4, 5) else (ig_tnum c, ig_tden c)) as [tn td].
+  destruct (len * td <? tn * cp); try discriminate.
+  destruct (if ig_gnum c <=? ig_gden c then (3, 2) else (ig_gnum c, ig_gden c)) as [gn gd].
+  set (n2 := if cp * gn / gd <? cp + _ then _ else _).
+  destruct ((0 <? ig_max c) && (ig_max c <? n2)) eqn:E.
+  - destruct (ig_max c <=? cp); intro H; inversion H; subst; lia.
+  - destruct (n2 <=? cp); intro H; inversion H; subst.
+    apply andb_false_iff in E. destruct E as [E|E].
+    + apply Nat.ltb_ge in E. lia.
+    + apply Nat.ltb_ge in E. lia.
+Qed.
+
+Lemma ig_newcap_gt c cp len nc : ig_newcap c cp len = Some nc -> cp < nc.
+Proof.
+  unfold ig_newcap.
+  destruct (cp =? 0); try discriminate.
+  destruct ((0 <? ig_max c) && (ig_max c <=? cp)); try discriminate.
+  destruct (if ig_tnum c =? 0 then (4, 5) else (ig_tnum c, ig_tden c)) as [tn td].
+  destruct (len * td <? tn * cp); try discriminate.
+  destruct (if ig_gnum c <=? ig_gden c then (3, 2) else (ig_gnum c, ig_gden c)) as [gn gd].
+  match goal with |- (if ?b then _ else _) = _ -> _ => destruct b eqn:E end; try discriminate.
+  intro H; inversion H; subst. apply Nat.leb_gt in E. lia.
+Qed.
+
+Definition ig_capok (M : nat) (ch : nat * list igid) : Prop := fst ch <= M.
+
+Lemma ig_upd_Forall {A} (P : A -> Prop) n a l : Forall P l -> P a -> Forall P (ig_upd n a l).
+Proof.
+  revert n; induction l as [|h t IH]; intros n F Pa; destruct n; simpl; auto; inversion F; subst; constructor; auto.
+Qed.
+Lemma ig_nth_Forall {A} (P : A -> Prop) n a l : Forall P l -> nth_error l n = Some a -> P a.
+Proof. intros F H. apply nth_error_In in H. rewrite Forall_forall in F. auto. Qed.
+
+Lemma ig_push_caps M chs r x chs' : ig_push chs r x = Some chs' -> Forall (ig_capok M) chs -> Forall (ig_capok M) chs'.
+Proof.
+  unfold ig_push. destruct (nth_error chs r) as [[cp q]|] eqn:E; try discriminate.
+  destruct (length q <? cp); try discriminate. intros H F; inversion H; subst.
+  apply ig_upd_Forall; auto. apply (ig_nth_Forall _ _ _ _ F E).
+Qed.
+Lemma ig_pop_caps M chs r x chs' : ig_pop chs r = Some (x, chs') -> Forall (ig_capok M) chs -> Forall (ig_capok M) chs'.
+Proof.
+  unfold ig_pop. destruct (nth_error chs r) as [[cp [|z q]]|] eqn:E; try discriminate.
+  intros H F; inversion H; subst.
+  apply ig_upd_Forall; auto. apply (ig_nth_Forall _ _ _ _ F E).
+Qed.
+
+Definition ig_inv2 (c : igcfg) (s : igst) : Prop :=
+  Forall (ig_capok (ig_max c)) (ig_chans s) /\
+  forall p pr nc, nth_error (ig_prods s) p = Some pr ->
+                  ig_pc pr = IgExpDecided nc \/ ig_pc pr = IgExpLocked nc -> nc <= ig_max c.
+
+Lemma ig_inv2_step c s a s' : 0 < ig_max c -> ig_inv2 c s -> ig_step c s a = Some s' -> ig_inv2 c s'.
+Proof.
+  intros M [F Hpc] H.
+  destruct a; unfold ig_step, ig_sent, ig_drop, ig_set_pc, ig_set_prods, ig_swap in H; ig_cases H.
+  all: split; simpl.
+  all: try assumption.
+  all: try (eapply ig_push_caps; eauto; try (eapply ig_pop_caps; eauto); fail).
+  all: try (eapply ig_pop_caps; eauto; fail).
+  all: try (apply Forall_app; split; auto; constructor; [|constructor]; unfold ig_capok; simpl; eapply Hpc; eauto; fail).
+  all: try (intros p0 pr0 nc0 HN HP;
+            match type of HN with nth_error (ig_upd ?p ?pr' _) _ = _ =>
+              match goal with E : nth_error (ig_prods _) p = Some _ |- _ =>
+                rewrite (nth_error_upd _ _ _ pr' p0 E) in HN end end;
+            destruct (p0 =? _) eqn:EQ;
+            [inversion HN; subst pr0; simpl in HP; try destruct (ig_strat c); destruct HP as [HP|HP]; try discriminate HP;
+             inversion HP; subst; try (eapply ig_newcap_le; eauto; fail); eapply Hpc; eauto
+            |eapply Hpc; eauto]; fail).
+Qed.
+
+Theorem ig_cap_bounded c n l s :
+  0 < ig_max c -> ig_cap0 c <= ig_max c -> ig_run c (ig_init c n) l = Some s ->
+  Forall (fun ch => fst ch <= ig_max c) (ig_chans s) /\ ig_cap s <= ig_max c.
+Proof.
+  intros M C0 H.
+  assert (I : ig_inv2 c s).
+  { revert H. assert (I0 : ig_inv2 c (ig_init c n)).
+    { split; simpl. - constructor; auto.
+      - intros p pr nc HN HP. apply nth_error_In in HN. apply repeat_spec in HN. subst. simpl in HP. destruct HP; discriminate. }
+    revert I0. generalize (ig_init c n). revert s.
+    induction l as [|a l IH]; simpl; intros s s0 I0 H.
+    - inversion H; subst; auto.
+    - destruct (ig_step c s0 a) eqn:E; try discriminate. eapply IH; [|eauto]. eapply ig_inv2_step; eauto. }
+  destruct I as [F _]. split; auto.
+  unfold ig_cap. destruct (nth_error (ig_chans s) (ig_cur s)) as [[cp q]|] eqn:E; [|lia].
+  apply (ig_nth_Forall _ _ _ _ F E).
+Qed.
